@@ -159,8 +159,12 @@ def sort_cases(run, n):
             io = {"err": type(e).__name__ + ": " + str(e)[:200]}
         if io != mo["rows"]:
             has_nan = any(c is not None and "nan" in c[1] for r in op["rows"] for c in r)
+            cells = {(c[0], c[1]) for r in op["rows"] for c in r if c is not None}
+            both_zeros = any((cl, tx.replace("-0.0", "0.0")) in cells for (cl, tx) in cells if "-0.0" in tx)
             if has_nan and run.known("D-C14b"):
                 run.count("known:D-C14b")
+            elif both_zeros and run.known("D-C14c"):
+                run.count("known:D-C14c")
             else:
                 run.disagree(case, mo["rows"], io)
 
@@ -249,10 +253,24 @@ def nan_witness(run):
         run.known("D-C14b")
 
 
+def zero_witness(run):
+    """finding D-C14c: 0.0 and -0.0 are == with equal hashes although `lt` orders them (by their printed text), so pandas'
+    multi-column sort treats them as one key and rows that differ only in the sign of a zero keep their input order"""
+    import pandas as pd
+    from opcua_tools.ua_data_types import UADouble
+    a, b = UADouble(0.0), UADouble(-0.0)
+    run.case({"witness": "D-C14c"}, tag="witness")
+    f1 = pd.DataFrame({"k": ["x", "x"], "v": pd.Series([a, b], dtype=object)}).sort_values(by=["k", "v"], ignore_index=True)
+    f2 = pd.DataFrame({"k": ["x", "x"], "v": pd.Series([b, a], dtype=object)}).sort_values(by=["k", "v"], ignore_index=True)
+    if a == b and (b < a) and [repr(x) for x in f1["v"]] != [repr(x) for x in f2["v"]]:
+        run.known("D-C14c")
+
+
 def explore(run):
     rng = run.rng
     thorough = run.tier == "thorough"
     nan_witness(run)
+    zero_witness(run)
     order_cases(run, pool(rng, 300 if thorough else 60))
     if run.full():
         return
